@@ -310,6 +310,36 @@ def sidecar_guard_facts(repo, fns):
     return guarded, minted, keyed, notes
 
 
+def zero_length_policy(repo):
+    """(found, zero-byte checkpoint sidecar counts as absent) read off
+    ensure_compaction_checkpoints_sidecar_best_effort_v1: its first guard is `if path.exists()` (a zero-byte file is
+    used as found) or `if <f>(&path)` with `fn <f>` testing `.len() > 0` of the file's metadata (counts as absent).
+    Anything else: not found (the obligation fails)."""
+    cp = os.path.join(repo, "crates", "ripd", "src", "continuity_stream_cache.rs")
+    if not os.path.exists(cp):
+        return False, False, ["continuity_stream_cache.rs not found"]
+    cs = strip_tests(strip_comments(open(cp).read()))
+    cf = methods_of_impl(cs, "ContinuityStreamCache")
+    body = cf.get("ensure_compaction_checkpoints_sidecar_best_effort_v1")
+    if body is None:
+        return False, False, ["ensure_compaction_checkpoints_sidecar_best_effort_v1 not found"]
+    m = re.search(r"let\s+(\w+)\s*=\s*self\s*\.\s*compaction_checkpoints_path_for_v1\s*\([^)]*\)\s*;\s*if\s+([^{]+?)\s*\{\s*return\s+Ok\(Some\(\s*\1\s*\)\)", body)
+    if not m:
+        return False, False, ["ensure_compaction_checkpoints_sidecar_best_effort_v1: first guard `if .. { return Ok(Some(path)) }` not found"]
+    var, cond = m.group(1), re.sub(r"\s+", "", m.group(2))
+    if cond == f"{var}.exists()":
+        return True, False, [f"checkpoint sidecar guard: `{cond}`: a zero-byte file is used as found"]
+    fm = re.fullmatch(r"(\w+)\(&" + re.escape(var) + r"\)", cond)
+    if fm:
+        dm = re.search(r"\bfn\s+" + re.escape(fm.group(1)) + r"\s*\([^)]*\)\s*->\s*bool\s*\{", cs)
+        if dm:
+            fb = re.sub(r"\s+", "", brace_body(cs, dm.end()))
+            if "metadata" in fb and re.search(r"\.len\(\)>0", fb) and "exists()" not in fb:
+                return True, True, [f"checkpoint sidecar guard: `{cond}` = the file holds at least one byte: a zero-byte file counts as absent"]
+            return False, False, [f"checkpoint sidecar guard `{cond}`: body of fn {fm.group(1)} not recognised: {fb[:80]}"]
+    return False, False, [f"checkpoint sidecar guard not recognised: `{cond}`"]
+
+
 def cb(b):
     return "true" if b else "false"
 
@@ -341,10 +371,16 @@ def main():
     except Exception as e:  # noqa: BLE001
         guarded, minted, keyed, gnotes = False, False, False, [f"sidecar guard facts: {e}"]
     notes += gnotes
+    try:
+        zl_found, zl_absent, znotes = zero_length_policy(a.repo)
+    except Exception as e:  # noqa: BLE001
+        zl_found, zl_absent, znotes = False, False, [f"zero-length policy: {e}"]
+    notes += znotes
     L = ["(* GENERATED by tools/gen/callgraph.py from crates/ripd/src/continuities.rs, server.rs and the cache modules - do not edit.",
          "   Which capability / route can reach `self.event_log.append` (C02, T1). *)",
          "From Coq Require Import String.",
-         "From RipV Require Import Base.Prelude Model.Frames Model.Log Model.ContStore Model.CapEffects.", "",
+         "From RipV Require Import Base.Prelude Model.Frames Model.Log Model.ContStore Model.CapEffects Model.LogBytes",
+         "  Model.NoopPlan Model.C02Cases.", "",
          "Definition gen_cap_reaches_append : list (cap * bool) :=",
          "  [" + ";\n   ".join(f"({c}, {cb(r)})" for c, r in rows) + "].", "",
          f"Definition gen_event_log_escapes : bool := {cb(escapes)}.",
@@ -371,7 +407,16 @@ def main():
          f"Definition gen_thread_ids_minted_by_store : bool := {cb(minted)}.", "",
          "Lemma gen_sidecar_guard_ok :",
          "  gen_rebuild_guarded_by_nonempty_replay && gen_cache_append_keyed_by_event && gen_thread_ids_minted_by_store = true.",
-         "Proof. vm_compute. reflexivity. Qed."]
+         "Proof. vm_compute. reflexivity. Qed.", "",
+         "(* does ensure_compaction_checkpoints_sidecar_best_effort_v1 count a zero-byte <id>.comp.v1.jsonl as absent",
+         "   (Model/NoopPlan.v `seen`)?  read off its first guard; not recognised => the obligation fails *)",
+         f"Definition gen_zero_length_policy_found : bool := {cb(zl_found)}.",
+         f"Definition gen_zero_length_comp_sidecar_is_absent : bool := {cb(zl_absent)}.", "",
+         "Lemma gen_zero_length_policy_ok : gen_zero_length_policy_found = true.",
+         "Proof. vm_compute. reflexivity. Qed.", "",
+         "(* the correspondence cases of C02 are checked under the policy the source has *)",
+         "Definition check_case_c02g := check_case_c02x_zl gen_zero_length_comp_sidecar_is_absent.",
+         "Definition model_obs_c02g := model_obs_c02x_zl gen_zero_length_comp_sidecar_is_absent."]
     os.makedirs(a.out, exist_ok=True)
     open(os.path.join(a.out, "Effects.v"), "w").write("\n".join(L) + "\n")
     for n in notes:
